@@ -49,13 +49,44 @@ def enum_tables(chk, prog):
     h = prog.hir.get(fn3)
     chk.floor("parse_size", 1 if h else 0, 1)
     if h:
+        # unit letter -> multiplier, from the MIR: the second operand of checked_mul (a literal in each arm, or a local assigned one
+        # constant per arm) together with the `match` edge on the suffix character under which it is chosen
         units = {}
-        for m in core.hir_find(h["body"], "Match"):
-            if m.get("scrut_ty") == "char":
-                for a in m["arms"]:
-                    for k in core.pat_keys(a["pat"]):
-                        if k[0] == "lit" and isinstance(k[1], int) and chr(k[1]) in "KMGkmgTt":
-                            units[chr(k[1])] = _const_product(a["body"])
+        pb = prog.bodies.get(fn3)
+
+        def char_label(blk):
+            for s_, lab, dd, info in core.guards_dominating(prog, pb, blk):
+                t_ = pb.term(s_)
+                if info and info.get("kind") == "int" and (t_.get("discr_ty") == "char") and isinstance(lab, int):
+                    return chr(lab)
+            return None
+
+        def exact(d_):
+            r_ = panics._range_of(prog, pb, d_)
+            return r_[0] if r_ and r_[0] == r_[1] else None
+        if pb:
+            for blk, t in pb.calls_to(r"num::<impl i64>::checked_mul$"):
+                op = t["args"][1]
+                l = core.op_local(op)
+                srcs = []
+                seen = set()
+                while l is not None and l not in seen:
+                    seen.add(l)
+                    ds = pb.defs().get(l, [])
+                    if len(ds) == 1 and ds[0][2] == "assign" and ds[0][3]["rv"]["k"] in ("use", "cast") and core.op_local(ds[0][3]["rv"]["o"]) is not None:
+                        l = core.op_local(ds[0][3]["rv"]["o"])
+                        continue
+                    for d_ in ds:
+                        if d_[2] == "assign":
+                            v = exact(core.describe_rv(prog, pb, d_[3]["rv"]) if d_[3]["rv"]["k"] != "use" else core.describe(prog, pb, d_[3]["rv"]["o"]))
+                            srcs.append((d_[0], v))
+                    break
+                if l is None:
+                    srcs.append((blk, exact(core.describe(prog, pb, op))))
+                for sb, v in srcs:
+                    ch = char_label(sb) or char_label(blk)
+                    if ch is not None:
+                        units[ch] = v
         chk.ob("R1.units", fn3, "size units K/M/G multiply by 1024, 1024^2, 1024^3", units == {"K": 1024, "M": 1024 ** 2, "G": 1024 ** 3}, f"{units}")
         up = any(n.get("e") == "MethodCall" and n.get("name") in ("to_ascii_uppercase", "to_uppercase") for n in hir_walk(h["body"]))
         chk.ob("R1.units", fn3, "the unit letter is matched case-insensitively (upper-cased)", up, "")
